@@ -68,9 +68,13 @@ func TestC04ExpiryVsEjectionRace(t *testing.T) {
 		sub.Case(map[string]int{"expiry_checkers": checkers}, true)
 		healthy := lb.IsBackendHealthy(b)
 		listed := lb.ListBackends()[0].Healthy
-		if healthy || listed {
+		published := false
+		if bm, ok := lb.GetMetricsCollector().GetMetrics().BackendMetrics[b.Name]; ok {
+			published = bm.IsHealthy
+		}
+		if healthy || listed || published {
 			lab.Violation(t, "expiry-vs-ejection-race", map[string]int{"expiry_checkers": checkers, "round": r},
-				"backend was ejected for 1h concurrently with %d expiry check(s) and is afterwards eligible=%v / reported healthy=%v", checkers, healthy, listed)
+				"backend was ejected for 1h concurrently with %d expiry check(s) and is afterwards eligible=%v / reported healthy by /v1/backends=%v / by /metrics and /health=%v", checkers, healthy, listed, published)
 		}
 	}
 }
